@@ -832,6 +832,9 @@ fn parse_json_filter(input: &[u8], output: &mut [u8]) -> Result<(usize, usize), 
             inpos += 1; // pass the hash
 
             // Mark this position (on the letter itself)
+            if num_tag_fields >= start_tags.len() {
+                return Err(InnerError::JsonBadFilter("Too many tag fields", inpos).into());
+            }
             start_tags[num_tag_fields] = inpos;
             num_tag_fields += 1;
 
